@@ -246,20 +246,23 @@ Theorem indexed_assignment_statement : forall fuel m x xp i0 idx e p m',
   stmt_at code (m_pc m) = Some (FAssign AReassign x xp (i0 :: idx) (Some e) p) ->
   interp code (S fuel) m = Ok m' ->
   exists v m1 c pre ix m2 t w,
-    eval code fuel e m = Ok (v, m1) /\ lookup_var x (m_scopes m1) = Some c /\
+    eval code fuel e m = Ok (v, m1) /\ lookup_var x (m_scopes m1) <> None /\
     eval_indexes (eval code fuel) (i0 :: idx) m1 = Ok (pre ++ [ix], m2) /\
+    (* the container is the one x denotes AFTER the index expressions have been evaluated *)
+    lookup_var x (m_scopes m2) = Some c /\
     resolve (m_heap m2) c pre = Some t /\ selects (m_heap m2) w t ix /\
     m' = next (set_heap m2 (write (m_heap m2) w v)).
 Proof.
   intros fuel m x xp i0 idx e p m' Hs H. rewrite interp_S in H. unfold interp_step in H. rewrite Hs in H.
   destruct (eval code fuel e m) as [[v m1]| | |] eqn:Ee; try discriminate. cbn [bind] in H.
-  destruct (lookup_var x (m_scopes m1)) as [c|] eqn:El; [|unfold rt_err, fail_here, unexpected_at in H; destruct (stmt_at code (m_pc m1)); discriminate].
+  destruct (lookup_var x (m_scopes m1)) as [c0|] eqn:El; [|unfold rt_err, fail_here, unexpected_at in H; destruct (stmt_at code (m_pc m1)); discriminate].
   destruct (eval_indexes (eval code fuel) (i0 :: idx) m1) as [[path m2]| | |] eqn:Ei; try discriminate. cbn [bind] in H.
   destruct (here code m2) as [p2| | |]; try discriminate. cbn [bind] in H.
+  destruct (lookup_var x (m_scopes m2)) as [c|] eqn:El2; [|unfold rt_err, fail_here, unexpected_at in H; destruct (stmt_at code (m_pc m2)); discriminate].
   destruct (assign_path m2 c path v p2) as [m3| | |] eqn:Ea; try discriminate. cbn [bind] in H. injection H as <-.
   assert (Hne : path <> []) by (eapply eval_indexes_nonempty; [exact Ei|discriminate]).
   destruct (exists_last Hne) as (pre & ix & ->).
   destruct (indexed_assignment_is_a_cell_write _ _ _ _ _ _ _ Ea) as (t & w & Hr & Hsel & ->).
-  exists v, m1, c, pre, ix, m2, t, w. auto 10.
+  exists v, m1, c, pre, ix, m2, t, w. repeat split; auto. congruence.
 Qed.
 End Statement.
